@@ -26,11 +26,11 @@ def _tier(tier):
     return dict(
         mc=["PartialSig_n4.cfg", "PartialSig_n7.cfg", "PartialSig_n7_thorough.cfg"],
         mc_r2={"perroot": "PartialSig_r2.cfg", "code": "PartialSig_r2_code.cfg"},
-        cover=("PartialSig_n4_cover.cfg", None, 12000),
+        cover=("PartialSig_n4_cover.cfg", None, 8000),
         cover_r2=(None, 3000),
         sims=[("PartialSig_n7_thorough.cfg", 7, 1, 3000, 24), ("PartialSig_n10_sim.cfg", 10, 1, 3000, 30),
               ("PartialSig_n13_sim.cfg", 13, 1, 3000, 36), ("PartialSig_r3_sim.cfg", 7, 3, 2000, 24)],
-        random_runs=6000, full_every=25)
+        random_runs=4000, full_every=25)
 
 
 # (cfg, n, r, removed guard / named deviation)
